@@ -119,7 +119,7 @@ def to_coq(c):
     if o.get("crash") or o.get("outhex"):
         return None
     op = c["op"]
-    if op in ("file", "gort", "runes", "reuse", "targets", "lexfn", "hold", "bigrt"):
+    if op in ("file", "gort", "runes", "reuse", "targets", "lexfn", "hold", "bigrt", "deep", "reread"):
         return "CUtf8 [] []"      # compared by the oracle only
     if op in ("rstream", "rseries") and c.get("rmode") in (6, 7):
         return "CUtf8 [] []"      # a failing reader: oracle only (usage_oracle)
@@ -514,6 +514,14 @@ def usage_oracle(c):
         if o.get("note"):
             return op, o["note"]
         return None
+    if op == "deep":
+        if o.get("note"):
+            return "deep-nesting", o["note"]
+        return None
+    if op == "reread":
+        if o.get("note"):
+            return "file-reread", o["note"]
+        return None
     if op == "bigrt":
         if o.get("note") or not o.get("ok"):
             return "token-size:%s" % c.get("pre"), o.get("note") or "failed"
@@ -573,6 +581,18 @@ def hold_oracle(ck, cases, k):
                  {"batch": batch, "changed": un, "expected": "a result stays what was returned until its owner changes it",
                   "observed": o})
     return True
+
+
+def order_oracle(c):
+    """The emitted JSON lists the members in source order (c["order"]: keys and scalars of the source in
+    document order; for plain JSON read by encoding/json's tokenizer, for rendered documents from the tree)."""
+    o = c["obs"]
+    if c.get("order") and o.get("ok") and o.get("order") and "E(" not in c["order"] and o["order"] != c["order"]:
+        a, b = c["order"], o["order"]
+        k = next((i for i in range(min(len(a), len(b))) if a[i] != b[i]), min(len(a), len(b)))
+        return "member-order", ("the emitted JSON does not list the members in source order: source ...%s..., "
+                                "emitted ...%s... (%s)" % (a[max(0, k - 40):k + 40], b[max(0, k - 40):k + 40], c.get("src", "")[:120]))
+    return None
 
 
 def file_oracle(c):
